@@ -1,4 +1,5 @@
 import inspect
+import threading
 from typing import Callable, Optional, Dict, Any, TypeVar, List
 from .datastructures import ImmutableDict
 from .functional import represent, multi, distinct_add
@@ -18,6 +19,7 @@ class TypeRegistry:
                  ):
         self._registry = []
         self._cache = {}
+        self._lock = threading.Lock()
 
         self.name = name
         self.cache = cache
@@ -75,12 +77,16 @@ class TypeRegistry:
         def decorator(f):
             if not self.validator(f):
                 raise TypeError(f'Invalid register target: {f}, must pass <{self.validator}> validate')
-            self._registry.insert(0, (detector, f, priority))
-            # always keep the priority order (stable: the latest registration stays first among equals),
-            # a registration with the default priority must not jump ahead of higher priorities
-            self._registry.sort(key=lambda v: -v[2])
-            # resolved types may now resolve differently
-            self._cache.clear()
+            with self._lock:
+                # build the new list aside and publish it with one assignment, so that a resolve()
+                # running in another thread never scans a list that is being inserted into or sorted
+                registry = [(detector, f, priority), *self._registry]
+                # always keep the priority order (stable: the latest registration stays first among equals),
+                # a registration with the default priority must not jump ahead of higher priorities
+                registry.sort(key=lambda v: -v[2])
+                self._registry = registry
+                # resolved types may now resolve differently: start a new memo (after the list, see resolve)
+                self._cache = {}
             return f
 
         # before runtime, type will be compiled and applied
@@ -94,13 +100,16 @@ class TypeRegistry:
         if self.shortcut and hasattr(t, self.shortcut) and self.validator(getattr(t, self.shortcut)):
             # this type already got a callable transformer, do not resolve then
             return getattr(t, self.shortcut)
-        if self.cache and t in self._cache:
-            return self._cache[t]
+        # take the memo before the list: a result computed from an older list can then only be
+        # written into a memo that register() has already replaced
+        cache = self._cache
+        if self.cache and t in cache:
+            return cache[t]
         for detector, trans, priority in self._registry:
             try:
                 if detector(t):
                     if self.cache:
-                        self._cache[t] = trans
+                        cache[t] = trans
                     return trans
             except (TypeError, ValueError):
                 continue
